@@ -362,4 +362,30 @@ theorem rtr_expectedCol_abs (env : Env) (doc : List (List SegX × List Tok)) (r 
     cases h <;> rfl
   simp only [expectedCol, hemp, e1]
 
+/-! ### plain modifiers in closed form -/
+
+theorem rtr_flag_bits (k : TK) (h : (k != .and && k != .plus) = true) :
+    ((modifierFlag k).getD 0) &&& Modifiers.REF = 0 ∧ ((modifierFlag k).getD 0) &&& Modifiers.NEW = 0 := by
+  cases k <;> first | (simp at h; done) | decide
+
+theorem rtr_modsOf_plain_aux (mods : List TK) (h : mods.all (fun k => k != .and && k != .plus) = true) (m : Modifiers)
+    (hm : m.bits &&& Modifiers.REF = 0 ∧ m.bits &&& Modifiers.NEW = 0) :
+    (mods.foldl (fun m k => m.insert ((modifierFlag k).getD 0)) m).bits &&& Modifiers.REF = 0 ∧
+    (mods.foldl (fun m k => m.insert ((modifierFlag k).getD 0)) m).bits &&& Modifiers.NEW = 0 := by
+  induction mods generalizing m with
+  | nil => exact hm
+  | cons k r ih =>
+    simp only [List.all_cons, Bool.and_eq_true] at h
+    have hk := rtr_flag_bits k (by simpa using h.1)
+    apply ih (by simpa using h.2)
+    simp only [Modifiers.insert, Nat.and_or_distrib_right, hm.1, hm.2, hk.1, hk.2]
+    exact ⟨rfl, rfl⟩
+
+theorem rtr_modsOf_plain (mods : List TK) (h : mods.all (fun k => k != .and && k != .plus) = true) :
+    plainMods (modsOf mods) := by
+  obtain ⟨h1, h2⟩ := rtr_modsOf_plain_aux mods h Modifiers.empty ⟨by decide, by decide⟩
+  unfold plainMods Modifiers.contains modsOf
+  rw [h1, h2]
+  decide
+
 end Cook
